@@ -274,6 +274,10 @@ class Rule:
     def on_return(self, it, st, fname, rv):
         pass
 
+    def on_branch(self, it, st, v, node):
+        """called when a condition on an opaque value splits the state"""
+        pass
+
     def keep_event(self, ev):
         return ev[0] == 'api'
 
@@ -494,9 +498,11 @@ class Interp:
             r = self.truthy(st, v)
         except Infeasible:
             return []
-        if self.rule.track_pc and len(r) > 1:
-            for s, t in r:
-                s.pc.append((v, t, node_loc(node)))
+        if len(r) > 1:
+            self.rule.on_branch(self, st, v, node)
+            if self.rule.track_pc:
+                for s, t in r:
+                    s.pc.append((v, t, node_loc(node)))
         return r
 
     def is_null(self, st, v):
